@@ -1206,6 +1206,20 @@ async fn s4_client(o: Arc<Obs>, ep: Endpoint, cc: ClientConfig, saddr: SocketAdd
     if let Err(e) = aw!(o, "cli.write.early_bi", ebs.write_all(S4_BI_EARLY)) {
         return o.fail("O7:early-write", format!("write on the early bidirectional stream: {e:?}"));
     }
+    // a task of its own is already waiting for the response on the early stream when the handshake
+    // completes (it is polled through its own waker only)
+    let latch = Arc::new(Latch::default());
+    type EarlyRead = (Result<Vec<u8>, quinn::ReadToEndError>, quinn::RecvStream);
+    let early_read: Arc<Mutex<Option<EarlyRead>>> = Arc::new(Mutex::new(None));
+    {
+        let (o, latch, slot) = (o.clone(), latch.clone(), early_read.clone());
+        o.world.clone().spawn_app("cli.early_reader", async move {
+            let r = aw!(o, "cli.read.early_bi", ebr.read_to_end(4096));
+            *slot.lock().unwrap() = Some((r, ebr));
+            latch.arrive();
+            o.stage("done");
+        });
+    }
     if let Err(e) = aw!(o, "cli.authenticated", conn.authenticated()) {
         return o.fail("O1:connect", format!("authenticated(): {}", cerr(&e)));
     }
@@ -1225,9 +1239,10 @@ async fn s4_client(o: Arc<Obs>, ep: Endpoint, cc: ClientConfig, saddr: SocketAdd
         if let Err(e) = ebs.finish() {
             return o.fail("O2:finish", format!("finish on the early bidirectional stream: {e:?}"));
         }
-        match aw!(o, "cli.read.early_bi", ebr.read_to_end(4096)) {
-            Ok(d) if d == S4_RESP => {}
-            r => return o.fail("O7:0rtt-response", format!("response on the accepted early bidirectional stream: {:?}", r.map(|d| d.len()))),
+        aw!(o, "cli.join.early_reader", latch.wait(1));
+        match early_read.lock().unwrap().take() {
+            Some((Ok(d), _)) if d == S4_RESP => {}
+            r => return o.fail("O7:0rtt-response", format!("response on the accepted early bidirectional stream: {:?}", r.map(|(r, _)| r.map(|d| d.len())))),
         }
     } else {
         // the stale handle reports the rejection and nothing else
@@ -1244,6 +1259,12 @@ async fn s4_client(o: Arc<Obs>, ep: Endpoint, cc: ClientConfig, saddr: SocketAdd
             Err(quinn::StoppedError::ZeroRttRejected) => {}
             r => return o.fail("O7:stale-handle", format!("stopped() on the early bidirectional stream after rejection returned {r:?}, expected Err(ZeroRttRejected)")),
         }
+        // the reader that was already waiting on the early stream learns of the rejection
+        aw!(o, "cli.join.early_reader", latch.wait(1));
+        let ebr = match early_read.lock().unwrap().take() {
+            Some((Err(quinn::ReadToEndError::Read(quinn::ReadError::ZeroRttRejected)), ebr)) => ebr,
+            r => return o.fail("O7:stale-handle", format!("a read that was pending on the early bidirectional stream when 0-RTT was rejected returned {:?}, expected Err(ZeroRttRejected)", r.map(|(r, _)| r.map(|d| d.len())))),
+        };
         let mut s2 = match aw!(o, "cli.open_uni.retry", conn.open_uni()) {
             Ok(s) => s,
             Err(e) => return o.fail("O1:open_uni", format!("open_uni after rejection: {}", cerr(&e))),
